@@ -28,7 +28,7 @@ CHECKS = {
          "No explored interleaving of first and subsequent parse/execute/register_* calls produced a panic, a deadlock/livelock, a partially initialised table or a history that no sequential order of the same calls explains (family S). The four torn-read micro-histories (family T) are a recorded known finding. Schedules are sampled (PCT depth <= 4), not enumerated.",
          "Scheduling points are exactly the seam's lock/unlock/once/spawn/join; sequential engine is the specification; errors compared by error-ness."),
  "C14": ("fault_enumeration", "3 C14", "deterministic simulation with re-entrant handlers: exhaustive handler-kind x re-entrant-action x position matrix plus seeded nesting; deadlock decided by the simulator's scheduler",
-         "Every cell of the handler kind x re-entrant action x position matrix (584 cases) completes with the model's result on every run; nested re-entrancy to depth 4 is sampled. A lock held across any handler invocation shows as a scheduler-reported deadlock.",
+         "Every cell of the handler kind x re-entrant action x position matrix (840 cases) completes with the model's result on every run; nested re-entrancy to depth 4 is sampled. A lock held across any handler invocation shows as a scheduler-reported deadlock.",
          "Simulator mutex reports holder re-acquisition; model predicts inner and outer results."),
  "C15": ("fault_enumeration", "3 C15", "deterministic simulation with fault injection: Err and panic injected at every handler-invocation index of every sampled program, bystander thread under seeded schedules, follow-up phase checked against the reference model",
          "For every sampled program and every invocation index k, both an injected Err and an injected panic are contained: history ends at k, the panic payload reaches the caller, the context equals the model's prefix state, and the follow-up (same context, all registries, another thread, describe) behaves as the model predicts; no lock left held (scheduler deadlock) or poisoned (real std poisoning).",
